@@ -12,7 +12,8 @@ R16.4 the range-to-pages loop has inclusive-last form (= C09 R9.3).
 import re
 
 from ..mir import deep_strip, tstr, strip_generics, canon, subterms, is_call
-from .. import effects, tracking, fixtures
+from .. import effects, tracking, fixtures, loops
+from ..bounds import norm
 from . import c05, c09
 
 CONFIGS = ("FULL", "XEN")
@@ -104,8 +105,14 @@ def rule_orphans_and_order(rep, prog, eff, sites, used):
                 nt = nt[1]
             if nt[0] == 'bin' and nt[1].startswith("Sub") and deep_strip(nt[2])[0] == 'var':
                 loop_diff = True
+            nn = norm(eff.inline(c.arg(2)))
+            if not dom and nn[0] == 'bin' and nn[1] == 'Mul':
+                # length = (iterations of the element loop that contains the write) * size: zero when the loop body never ran
+                for il in loops.iter_loops(b, eff):
+                    if any(w["pos"][0] in il["blocks"] for w in ws) and any(loops.final_count_var(b, il, x) for x in (nn[2], nn[3])):
+                        loop_diff = True
             rep("R16.3.mark_after_write", inst, dom or loop_diff, c.where(),
-                "the write dominates the mark" if dom else ("extent is the loop's pointer difference (zero when nothing was written)" if loop_diff else
+                "the write dominates the mark" if dom else ("extent is the loop's pointer difference / iteration count (zero when nothing was written)" if loop_diff else
                 "the mark can execute on a path where the write did not: a request rejected before any byte was written would still mark"))
     return n
 
